@@ -140,7 +140,10 @@ def run(ctx):
         "abstract_cases": len(cases),
         "model_accepts": [list(map(str, a)) for a in accepted],
         "deviation_flags": CODE_FAITHFUL,
-        "exhaustive": True,
+        "exhaustive": not q,
+        "exhaustive_scope": "TLC: all reachable states of the configs named in tlc_runs; Go: every single-bit flip at every position, "
+                            "every truncation and every garbage length 0..20480 in the thorough tier (quick samples positions, cuts "
+                            "and lengths); multi-byte corruptions, keys and garbage contents are sampled in both tiers",
         "checker_cmd": "tlc FrameCodec.tla (ideal / code-faithful) / FrameCodecGen.tla + go test -run TestVerifC11Replay",
         "harness_stats": {k: v for k, v in st.items() if not k.startswith("violations:")},
         "violation_counts": {k.split(":", 1)[1]: v for k, v in st.items() if k.startswith("violations:")},
